@@ -113,7 +113,7 @@ func toLS(l model.Labels) commonmodel.LabelSet {
 // (with group_by: ['...'], they are one alert).
 func TestEmptyGroupLabelValues(t *testing.T) {
 	run := vf.Cur()
-	sub := run.Sub("empty-group-label-values", "group_by: [alertname, team] (or ['...']); alerts of one alert name are posted with team missing, with team: \"\" and (a third) with a real team value, in one batch or one per POST in random order; GET /alerts/groups must show ONE group for the alerts without a team value, with group labels that carry no empty-valued label, holding all of them, and a separate group for the real value; every notification of that group lists all of them under those group labels; with ['...'] the two spellings of the same label set are one alert in one group; non-trivial = every case; distinct by (seed)", 8)
+	sub := run.Sub("empty-group-label-values", "group_by: [alertname, team] (or ['...']); alerts of one alert name are posted with team missing, with team: \"\" and (a third) with a real team value, in one batch or one per POST in random order; GET /alerts/groups must show ONE group for the alerts without a team value, with group labels that carry no empty-valued label, holding all of them, and a separate group for the real value; notifications only go to groups of that partition and the latest one of each group lists all its alerts; with ['...'] the two spellings of the same label set are one alert in one group; non-trivial = every case; distinct by (seed)", 8)
 	n := run.N(16, 400)
 	vf.Parallel(t, n, 8, func(t *testing.T, i int) {
 		r := sub.Rand(i)
@@ -223,8 +223,14 @@ func TestEmptyGroupLabelValues(t *testing.T) {
 				sub.Violation("alerts-with-equal-group-values-split-over-groups", w)
 				return
 			}
-			// every notification lists the complete group under those labels
-			for _, a := range in.Log.Attempts() {
+			// notifications go to groups of the partition only, and the latest one of each group lists the complete
+			// group (alerts posted one by one may arrive after the first flush)
+			atts := in.Log.Attempts()
+			lastOf := map[string]int{}
+			for k, a := range atts {
+				lastOf[a.GroupLabels.Key()] = k
+			}
+			for k, a := range atts {
 				exp := want[a.GroupLabels.Key()]
 				if exp == nil {
 					w["notification_group_labels"] = a.GroupLabels
@@ -235,7 +241,7 @@ func TestEmptyGroupLabelValues(t *testing.T) {
 				for _, al := range a.Alerts {
 					listed[norm(al.Labels).Key()] = true
 				}
-				if len(listed) != len(exp) {
+				if lastOf[a.GroupLabels.Key()] == k && len(listed) != len(exp) {
 					w["notification_group_labels"], w["listed"], w["expected"] = a.GroupLabels, len(listed), len(exp)
 					sub.Violation("notification-omits-a-firing-member-of-the-group", w)
 					return
